@@ -42,6 +42,11 @@ var ErrTimeout = xerrors.New("Timeout Error")
 // ErrUnknown is an unknown error.
 var ErrUnknown = xerrors.New("Unknown Error")
 
+// ErrTooBig is raised when the remote announces a packet bigger than
+// MaxPacketSize. The body of that packet is not read, so the stream cannot
+// be used anymore and the connection must be dropped.
+var ErrTooBig = xerrors.New("Packet too big")
+
 // Size is a type to reprensent the size that is sent before every packet to
 // correctly decode it.
 type Size uint32
